@@ -40,7 +40,9 @@ func init() {
 	sh("C01", 120, 1200, runner.Part{Scenario: "simhost", Params: p("pdup", "0"), Share: 3},
 		runner.Part{Scenario: "simhost", Params: p("pdup", "0", "readmix", "60", "ppartition", "8", "ptransfer", "8"), Share: 2},
 		// leadership going back and forth (transfers, splits) under message loss and delay, many reads
-		runner.Part{Scenario: "simhost", Params: p("pdup", "0", "readmix", "70", "ptransfer", "15", "pdrop", "10", "preorder", "40", "ppartition", "10", "pheal", "10", "clients", "4", "keys", "1"), Share: 2})
+		runner.Part{Scenario: "simhost", Params: p("pdup", "0", "readmix", "70", "ptransfer", "15", "pdrop", "10", "preorder", "40", "ppartition", "10", "pheal", "10", "clients", "4", "keys", "1"), Share: 2},
+		// reads through and next to non-voting members: a leader cut off together with a non-voting member
+		runner.Part{Scenario: "simhost", Params: p("pdup", "0", "hosts", "4", "voters", "3", "pmember", "15", "memberbias", "1", "checkquorum", "0", "ppartition", "12", "groupsplit", "60", "pheal", "2", "election", "5", "ticknum", "1", "tickden", "4", "steps", "2500", "keys", "1", "clients", "4", "readmix", "60", "pcrash", "0", "pdrop", "0", "quiesce", "0"), Share: 3})
 	sh("C02", 120, 1200, runner.Part{Scenario: "simhost", Share: 3},
 		runner.Part{Scenario: "simhost", Params: p("pmember", "10", "hosts", "4"), Share: 1},
 		// few voters with non-voting members / witnesses, crashes between send and save
@@ -69,6 +71,8 @@ func init() {
 	sh("C07", 90, 1200, runner.Part{Scenario: "simhost", Params: p("pmember", "20", "hosts", "4"), Share: 2},
 		runner.Part{Scenario: "simhost", Params: p("pmember", "12", "hosts", "5", "pcrash", "6"), Share: 1},
 		runner.Part{Scenario: "simhost", Params: p("pmember", "25", "ptransfer", "30", "hosts", "4", "smyield", "300"), Share: 2},
+		// members of every kind come and go while followers lag and catch up through snapshots
+		runner.Part{Scenario: "simhost", Params: p("pmember", "30", "hosts", "5", "voters", "3", "memberbias", "2", "snapshot", "5", "overhead", "0", "ppartition", "12", "pheal", "8", "pcrash", "0", "ops", "40"), Share: 2},
 		runner.Part{Scenario: "l0/rsmtwin", Params: p("focus", "membership"), Share: 1})
 	sh("C08", 90, 1200, runner.Part{Scenario: "simhost", Params: p("snapshot", "5", "overhead", "0", "pcrash", "6", "ppartition", "8", "ops", "40"), Share: 2},
 		runner.Part{Scenario: "simhost", Params: p("snapshot", "12", "overhead", "2", "psnapreq", "10", "pstop", "4", "compress", "1"), Share: 1},
